@@ -164,6 +164,7 @@ func regoC01(c *checkCtx) {
 	progs = append(progs, regosym.FamilyGrouped(thorough)...)
 	progs = append(progs, regosym.FamilyFloatBounds(thorough)...)
 	progs = append(progs, regosym.FamilyFloatSets(thorough)...)
+	progs = append(progs, regosym.FamilySpecialValues(thorough)...)
 	if thorough {
 		progs = append(progs, regosym.FamilyBoundaries()...)
 	}
@@ -181,7 +182,7 @@ func regoC01(c *checkCtx) {
 		progs = append(progs, regosym.FamilyVariableIndex([]int{1, 11, 12, 22, 23, 24, 25, 26})...)
 	}
 	c.evidence["bounds_regosym"] = map[string]any{"nodes": n, "values_per_property": 2, "classes": "classes mentioned + 1", "literal_pool": "<= 4 literals derived from the program's constants + references to each node + one dangling reference",
-		"families": "atoms (every documented atomic constraint alone / under not / in or / in if-then), atoms below nested/atLeast/atMost in positive and negative positions, atoms on composite paths (sequence, alternative, inverse, @type), value ranges with non-integer bounds (data values on the bound and on both sides, nearer than six decimals), quantified (nested, atLeast/atMost 0..2 around small inner formulas, positive and negated), connective skeletons as YAML, variable-index (a nested-in-nested constraint whose outer quantified variable is the k-th of its validation)"}
+		"families": "atoms (every documented atomic constraint alone / under not / in or / in if-then), atoms below nested/atLeast/atMost in positive and negative positions, atoms on composite paths (sequence, alternative, inverse, @type), set constraints whose values hold a double quote or a backslash (alone and as the condition of an if-then-else), value ranges with non-integer bounds (data values on the bound and on both sides, nearer than six decimals), quantified (nested, atLeast/atMost 0..2 around small inner formulas, positive and negated), connective skeletons as YAML, variable-index (a nested-in-nested constraint whose outer quantified variable is the k-th of its validation)"}
 	outs, err := runPrograms(regoWork(c), progs, func(p regosym.Program) regosym.Scope { return regosym.ScopeFor(p, n, 2, 4) }, c.knownSignatures("C01.verdict-eq-reference"), 16)
 	if err != nil {
 		c.inconclusive("regosym: " + err.Error())
